@@ -175,7 +175,7 @@ def witnessBmp : Upd :=
 /-- The Dumping-phase End-of-RIB shortcut violates C04 (independently of the pad-bit site:
     the variant here has pad bits repaired): the witness announces 203.0.113.0/24 and
     yields no route. Replayed on the real state machine by the engine. -/
-theorem C04_bmp_counterexample : ¬ C04_bmp_full ⟨true, true⟩ := by
+theorem C04_bmp_counterexample : ¬ C04_bmp_full ⟨true, true, false⟩ := by
   intro h
   have h' := h true witnessBmp [] [] []
     ⟨by decide, by decide, by decide, by decide, by decide, by decide, by decide⟩
@@ -185,6 +185,46 @@ theorem C04_bmp_counterexample : ¬ C04_bmp_full ⟨true, true⟩ := by
   decide
 
 example : isEorRc witnessBmp = true ∧ witnessBmp.clean := by decide
+
+/-! ## The MRT update-file path -/
+
+/-- C04 for an UPDATE read from a BGP4MP_MESSAGE (`as4 = false`) or BGP4MP_MESSAGE_AS4
+    (`as4 = true`) record: the events carry the record's AS width. -/
+def C04_mrt_full (v : Variant) : Prop :=
+  ∀ (as4 : Bool) (u : Upd) (r w : List (Fam × Pfx)) (extra : Bytes),
+    u.wfRfc → ReachIs u.attrs r → UnreachIs u.attrs w →
+    runMrt v as4 (encode u ++ extra) = some (specEvents as4 u r w)
+
+theorem C04_mrt_full_repaired (v : Variant) (hp : v.maskPad = true) (hm : v.mrtForcesAs4 = false) :
+    C04_mrt_full v := by
+  intro as4 u r w extra hwf hr hw
+  unfold runMrt
+  rw [hm, Bool.false_or]
+  exact run_encode v as4 u r w extra hwf hr hw (Or.inl hp)
+
+/-- Code as written: right for AS4 records (and clean pad bits). -/
+theorem C04_mrt_partial (u : Upd) (r w : List (Fam × Pfx)) (extra : Bytes)
+    (hwf : u.wfRfc) (hr : ReachIs u.attrs r) (hw : UnreachIs u.attrs w)
+    (hclean : u.clean ∧ allClean r ∧ allClean w) :
+    runMrt asWritten true (encode u ++ extra) = some (specEvents true u r w) := by
+  unfold runMrt
+  rw [Bool.or_true]
+  exact run_encode asWritten true u r w extra hwf hr hw (Or.inr hclean)
+
+/-- AS_PATH (64500 64501) in 2-octet encoding, NLRI 203.0.113.0/24. -/
+def witnessMrt : Upd :=
+  ⟨[], [⟨0x40, 1, [0]⟩, ⟨0x40, 2, [2, 2, 0xfb, 0xf4, 0xfb, 0xf5]⟩, ⟨0x40, 3, [10, 0, 0, 1]⟩],
+   [⟨24, [203, 0, 113]⟩]⟩
+
+/-- A 2-octet-AS record comes out tagged 4-octet-AS (pad-bit and EoR sites repaired in
+    this variant, so it is this site alone). -/
+theorem C04_mrt_counterexample : ¬ C04_mrt_full ⟨true, false, true⟩ := by
+  intro h
+  have h' := h false witnessMrt [] [] []
+    ⟨by decide, by decide, by decide, by decide, by decide, by decide, by decide⟩
+    (.absent (by decide)) (.absent (by decide))
+  revert h'
+  decide
 
 /-! ## What `specEvents` says, clause by clause -/
 
